@@ -163,6 +163,10 @@ func checkF(target interface{}, args []interface{}) (hasContext, isNamespace boo
 			return false, false, fmt.Errorf("too few arguments for target, got %d for %T", len(args), target)
 
 		}
+		// the variadic parameter must be of a supported type even when no value is passed for it
+		if elemT := t.In(t.NumIn() - 1).Elem(); !argTypes[elemT] {
+			return false, false, fmt.Errorf("variadic argument (%s), is not a supported argument type", elemT)
+		}
 	} else if len(args) != inputs {
 		return false, false, fmt.Errorf("wrong number of arguments for target, got %d for %T", len(args), target)
 	}
